@@ -129,13 +129,17 @@ func (w *writer) str(s []byte, depth int) {
 		}
 		out = append(out, '<')
 		for i, c := range dig {
-			if p.str == "hexws" {
-				out = append(out, whites[(i+w.ctr)%len(whites)])
+			if p.str == "hexws" { // white space is ignored anywhere: runs of 0, 1 or 2 white bytes before each digit
+				for k := 0; k < (i+w.ctr)%3; k++ {
+					out = append(out, whites[(i+k+w.ctr)%len(whites)])
+				}
 			}
 			out = append(out, c)
 		}
 		if p.str == "hexws" {
-			out = append(out, whites[(len(dig)+w.ctr)%len(whites)])
+			for k := 0; k < (len(dig)+w.ctr)%3; k++ {
+				out = append(out, whites[(len(dig)+k+w.ctr)%len(whites)])
+			}
 		}
 		out = append(out, '>')
 		w.ctr++
